@@ -19,7 +19,7 @@ func init() {
 	ev.Register(&ev.Spec{
 		ID: "C15", Level: "fault_enumeration",
 		Rule:    "for each base sequence (hand-written ones covering attach-with-path, multi-step walks, fid replacement so that Close runs inside a request, create-rebinding, rename with live fids in the renamed subtree so that Renamed runs, unlink/remove, xattr walk/create/clunk, plus PRNG sequences) a fault-free run counts the backend calls c, then the sequence is re-run c times with the fault at call index 1..c - exhaustive over indices - once as an error (errno kinds rotate: linux.Errno, syscall.Errno, os.Err* sentinels, %w-wrapped, *fs.PathError, errors.Join, opaque) and once as a panic. The faulted request must be answered Rlerror (the error's errno / EFAULT), the session model keeps judging every later reply after an error, the fid table is probed after every step (EBADF iff unbound), a second connection must still be served, and after an error every handle is closed exactly once when the connections end. Non-trivial: the fault fired inside a request; distinct by (sequence, fault index, kind).",
-		Assume:  []string{"faults are applied before any backend mutation, so a faulted call has no backend-side effect", "after a panic only 'every request gets a reply, on this and another connection' is demanded", "faults in Close during connection teardown are not injected (an unrecovered panic there would end the process; outside 'any request')"},
+		Assume:  []string{"faults are applied before any backend mutation, so a faulted call has no backend-side effect", "after a panic: every request gets a reply on this and another connection, no later request is answered EFAULT (the one fault has fired), every bound fid can still be cloned and Tremove unbinds it; nothing about File bookkeeping", "faults in Close during connection teardown are not injected (an unrecovered panic there would end the process; outside 'any request')"},
 		Shards:  shards(8, 16),
 		Timeout: timeout(8*time.Minute, 60*time.Minute),
 		Run:     runC15,
@@ -108,6 +108,7 @@ func c15Run(c *ev.Ctx, seq []c15step, si int, faultAt int, ferr error, kind stri
 	fired := false
 	firedAt := -1
 	var firedMethod string
+	panicSpread := false
 	for i, s := range seq {
 		if st.dead {
 			break
@@ -115,10 +116,16 @@ func c15Run(c *ev.Ctx, seq []c15step, si int, faultAt int, ferr error, kind stri
 		c.Begin(fmt.Sprintf("C15 seq %d fault@%d kind=%s step %d %s", si, faultAt, kind, i, s.a.String()))
 		was := fault != nil && fsx.Hit(fault)
 		if st.relax {
-			// after a panic: every request must still get some reply
+			// after a panic: every request must still get some reply - and no
+			// other request is affected: the one fault has fired, nothing can
+			// panic inside the server any more, so EFAULT must not appear again
 			r := st.step(s.conn, s.a.t, s.a.vals...)
 			if !r.ok {
 				break
+			}
+			if r.reply.Type == wire.Rlerror && len(r.reply.F) == 1 && r.reply.F[0].(uint64) == EFAULT {
+				c.Violation("C15:later-request-answered-EFAULT-after-a-panic-in-"+firedMethod+":"+wire.TypeName(s.a.t), map[string]any{"request": s.a.String(), "panic_was_in": firedMethod, "trace": st.tail()})
+				panicSpread = true
 			}
 			continue
 		}
@@ -185,6 +192,47 @@ func c15Run(c *ev.Ctx, seq []c15step, si int, faultAt int, ferr error, kind stri
 	// after the fault: this and a fresh connection must be served on the same paths
 	fsx.ClearFaults()
 	fsx.PauseFaults(true)
+	if !st.dead && st.relax && !panicSpread {
+		// after a panic: every fid that is still bound can be cloned, and
+		// Tremove unbinds it - no request other than the faulted one is affected
+		for conn := range st.peers {
+			for fid := uint64(0); fid <= 4 && !st.dead; fid++ {
+				p := st.peers[conn]
+				g := p.RPC(wire.Tgetattr, u(fid), u(1))
+				if !g.OK {
+					hang(c, g.Out, g.Dump, "C15:connection-not-served-after-fault", map[string]any{"kind": kind, "trace": st.tail()})
+					st.dead = true
+					break
+				}
+				if g.Errno() == EBADF {
+					continue
+				}
+				for _, q := range []struct {
+					what string
+					t    uint8
+					vals []any
+				}{{"clone", wire.Twalk, []any{u(fid), u(9), []string{}}}, {"clunk-of-clone", wire.Tclunk, []any{u(9)}}, {"Tremove", wire.Tremove, []any{u(fid)}}, {"probe", wire.Tgetattr, []any{u(fid), u(1)}}} {
+					if fid == 0 && q.what != "clone" && q.what != "clunk-of-clone" {
+						continue // the root fid is kept for the checks below
+					}
+					r := p.RPC(q.t, q.vals...)
+					st.trace = append(st.trace, fmt.Sprintf("c%d epilogue %s fid=%d -> %s", conn, q.what, fid, r.Msg.String()))
+					if !r.OK {
+						hang(c, r.Out, r.Dump, "C15:connection-not-served-after-fault", map[string]any{"kind": kind, "trace": st.tail()})
+						st.dead = true
+						break
+					}
+					if r.Errno() == EFAULT {
+						c.Violation("C15:later-request-answered-EFAULT-after-a-panic-in-"+firedMethod+":"+q.what, map[string]any{"fid": fid, "panic_was_in": firedMethod, "trace": st.tail()})
+						break
+					}
+					if q.what == "probe" && r.Errno() != EBADF {
+						c.Violation("C15:Tremove-does-not-unbind-after-a-panic-in-"+firedMethod, map[string]any{"fid": fid, "reply": r.Msg.String(), "trace": st.tail()})
+					}
+				}
+			}
+		}
+	}
 	if !st.dead {
 		for _, p := range [][]string{{"a"}, {"a", "b"}, {"f"}, {}} {
 			r := st.peers[1].RPC(wire.Twalk, u(0), u(9), append([]string{}, p...))
